@@ -79,6 +79,8 @@ type CbRec struct {
 	Hashes []string  `json:"hashes,omitempty"`
 	Key    int       `json:"key,omitempty"`
 	Tx     string    `json:"tx,omitempty"`
+	Which  string    `json:"which,omitempty"`
+	Perm   []int     `json:"perm,omitempty"`
 }
 
 // Node wraps one real DBFT instance.
@@ -330,7 +332,7 @@ func (n *Node) build() {
 }
 
 func ctxBlockRec(ctx *dbft.Context[H]) BlockRec {
-	return BlockRec{H: ctx.BlockIndex, Prev: string(ctx.PrevHash), Ts: ctx.Timestamp,
+	return BlockRec{H: ctx.BlockIndex, Prev: short(ctx.PrevHash), Ts: ctx.Timestamp,
 		Nonce: strconv.FormatUint(ctx.Nonce, 10), Txs: hs(ctx.TransactionHashes)}
 }
 
@@ -395,6 +397,8 @@ type PState struct {
 	PreDone   bool       `json:"preDone"`
 	Hdr       bool       `json:"hdr"`
 	PreHdr    bool       `json:"preHdr"`
+	Blk       bool       `json:"blk"`
+	PreBlk    bool       `json:"preBlk"`
 	Cache     []InboxRec `json:"cache"`
 	Timer     TimerRec   `json:"timer"`
 	Sub       bool       `json:"sub"`
@@ -465,7 +469,7 @@ func (n *Node) proj(handed *Block, handedPre *PreBlock) *PState {
 	for _, v := range c.Validators {
 		s.Vals = append(s.Vals, keyID(v))
 	}
-	s.Prev = string(c.PrevHash)
+	s.Prev = short(c.PrevHash)
 	s.Ts, s.Nonce, s.Txs = c.Timestamp, strconv.FormatUint(c.Nonce, 10), hs(c.TransactionHashes)
 	for h := range c.Transactions {
 		s.Have = append(s.Have, string(h))
@@ -557,6 +561,7 @@ func (n *Node) proj(handed *Block, handedPre *PreBlock) *PState {
 		s.Seen = append(s.Seen, Slot{K: "hv", H: &h, V: &v})
 	}
 	s.BlockDone, s.PreDone, s.Hdr, s.PreHdr = vs.BlockProcessed, vs.PreBlockProcessed, vs.HeaderBuilt, vs.PreHeaderBuilt
+	s.Blk, s.PreBlk = vs.BlockBuilt, vs.PreBlockBuilt
 	hts := make([]int, 0, len(vs.Cache))
 	for h := range vs.Cache {
 		hts = append(hts, int(h))
@@ -586,6 +591,34 @@ type LedgerRec struct {
 	Vals    []int  `json:"vals"`
 }
 
+// AppRec is what the application would answer during the call (taken before it).
+type AppRec struct {
+	Known     []string `json:"known"`
+	Pool      []string `json:"pool"`
+	Bad       []string `json:"bad"`
+	FailPre   int      `json:"failPre"`
+	FailBlock int      `json:"failBlock"`
+	NilBlock  bool     `json:"nilBlock"`
+}
+
+func (n *Node) appRec() AppRec {
+	a := AppRec{Known: []string{}, Pool: []string{}, Bad: []string{}, FailPre: n.FailPreBlock, FailBlock: n.FailBlock, NilBlock: n.NilBlock}
+	for h := range n.Known {
+		a.Known = append(a.Known, string(h))
+	}
+	sort.Strings(a.Known)
+	for _, t := range n.Pool {
+		a.Pool = append(a.Pool, string(t))
+	}
+	for h, b := range n.BadTx {
+		if b {
+			a.Bad = append(a.Bad, string(h))
+		}
+	}
+	sort.Strings(a.Bad)
+	return a
+}
+
 // Line is one ndjson trace line: one API call of one node.
 type Line struct {
 	I      int       `json:"i"`
@@ -595,6 +628,7 @@ type Line struct {
 	Arg    any       `json:"arg"`
 	Ledger LedgerRec `json:"ledger"`
 	Cfg    *NodeCfg  `json:"cfg,omitempty"`
+	App    AppRec    `json:"app"`
 	Post   *PState   `json:"post"`
 	Fresh  bool      `json:"fresh"` // the DBFT object was (re)created by this call: previous state is void
 	Cb     []CbRec   `json:"cb"`
@@ -621,11 +655,11 @@ func (n *Node) ledgerRec() LedgerRec {
 			my = i
 		}
 	}
-	return LedgerRec{Height: n.Height, Tip: string(n.TipHash), TipTs: n.TipTs, NVals: len(vals), MyIndex: my, Vals: vals}
+	return LedgerRec{Height: n.Height, Tip: short(n.TipHash), TipTs: n.TipTs, NVals: len(vals), MyIndex: my, Vals: vals}
 }
 
 func (n *Node) call(name string, arg any, f func()) *Line {
-	l := &Line{N: n.ID, Now: n.Clk.Now, Call: name, Arg: arg, Ledger: n.ledgerRec()}
+	l := &Line{N: n.ID, Now: n.Clk.Now, Call: name, Arg: arg, Ledger: n.ledgerRec(), App: n.appRec()}
 	n.cbs = []CbRec{}
 	n.nAPI++
 	func() {
@@ -659,7 +693,14 @@ func (n *Node) Reset() *Line {
 	return n.call("Reset", TsArg{n.TipTs}, func() { n.D.Reset(n.TipTs) })
 }
 func (n *Node) Receive(p *Payload) *Line {
-	return n.call("OnReceive", p.Rec(), func() { n.D.OnReceive(p.clone()) })
+	q := p.clone()
+	if rm, ok := q.Body.(*RMsgBody); ok {
+		rm2 := *rm
+		rm2.order = n.RMsgOrder
+		rm2.note = func(which string, perm []int) { n.cb(CbRec{K: "RMOrder", Which: which, Perm: perm}) }
+		q.Body = &rm2
+	}
+	return n.call("OnReceive", p.Rec(), func() { n.D.OnReceive(q) })
 }
 func (n *Node) Timeout(h uint32, v byte) *Line {
 	return n.call("OnTimeout", HV{h, int(v)}, func() { n.D.OnTimeout(h, v) })
